@@ -10,9 +10,9 @@
    the first frame nobody had pulled.  [frames_of k tr]: the frames output [k] received, in order;
    [received k tr] their number.  [is_live s k]: output k is attached and not dropped.
    Outside the model: wrap-around of next_key after 2^64 sends (usize is nat). *)
-Require Import List Arith.
+Require Import List Arith Bool.
 From Dasp Require Import Base.Res Signal.Bus Signal.BusSpec Signal.BusProofs Signal.BusHistProofs
-  Signal.BusExamples.
+  Signal.BusExh Signal.BusExhProofs Signal.BusExamples.
 Import ListNotations.
 
 (* The invariant (unique keys, offsets within the backlog, backlog = the last pulled frames in order,
@@ -108,3 +108,23 @@ Theorem c13_backlog : forall (F : Type) (f : nat -> F) (ops : list op) (s : @st 
   ((forall k a, is_live s k -> In (ESend k a) tr -> a + received k tr = pulled s) -> buf s = []).
 Proof. exact @run_backlog. Qed.
 Print Assumptions c13_backlog.
+
+(* Output::is_exhausted and dropping the Bus handle (Signal/BusExh.v; [ex n] = the source reports
+   exhaustion after n pulls).  They do not change the shared node: every state reached through the
+   extended API is reached by the core schedule with the same trace, so all theorems above apply to it
+   (in particular frames pulled after the source is exhausted are queued and delivered like any other)... *)
+Theorem c13_ext_reachable : forall (F : Type) (f : nat -> F) (ex : nat -> bool) (ops : list xop)
+    (s : @st F) (xtr : list (@xev F)),
+  xrun f ex ops init = Ok (s, xtr) -> run f (core ops) init = Ok (s, core_ev xtr).
+Proof. exact @xrun_reachable. Qed.
+Print Assumptions c13_ext_reachable.
+
+(* ... and a live output reports exhaustion iff it has received every frame pulled so far and the
+   source is exhausted (whatever its siblings still have pending). *)
+Theorem c13_exhausted : forall (F : Type) (f : nat -> F) (ex : nat -> bool) (ops : list xop)
+    (s : @st F) (xtr : list (@xev F)),
+  xrun f ex ops init = Ok (s, xtr) ->
+  forall k a, In (ESend k a) (core_ev xtr) -> is_live s k ->
+    output_is_exhausted ex s k = Ok ((a + received k (core_ev xtr) =? pulled s) && ex (pulled s)).
+Proof. exact @exhausted_iff. Qed.
+Print Assumptions c13_exhausted.
